@@ -141,6 +141,7 @@ var (
 	consStall      time.Duration
 	consStallEvery uint64 = 1
 	consStallCount atomic.Uint64
+	consStallSite  simcore.Site
 )
 
 func hookYield(site string, key uint64) {
@@ -151,7 +152,7 @@ func hookYield(site string, key uint64) {
 	if !ok {
 		return
 	}
-	if consStall > 0 && isConsumerSite(s) && s != SGoStart {
+	if consStall > 0 && isConsumerSite(s) && s != SGoStart && (consStallSite == 0 || consStallSite == s) {
 		if n := consStallCount.Add(1); n%consStallEvery == 0 {
 			time.Sleep(consStall)
 		}
@@ -184,6 +185,14 @@ func runEpisode(sc *Scenario) *Result {
 	}
 	consStall, consStallEvery = time.Duration(sc.ConsStallMs)*time.Millisecond, uint64(max(sc.ConsStallEvery, 1))
 	consStallCount.Store(0)
+	consStallSite = 0
+	if sc.ConsStallSite != "" {
+		for name, id := range siteNames {
+			if id == sc.ConsStallSite {
+				consStallSite = name
+			}
+		}
+	}
 	if consStall > 0 {
 		ep.probes["slow-consumer-in-real-time"]++
 	}
@@ -546,11 +555,30 @@ func (ep *episode) withFault(j *Job, jr *jobRun, path string, call func()) func(
 				panic(fmt.Sprint("fifo: ", err1, err2))
 			}
 			done := make(chan int64, 1)
-			go envDrain(rd, done, time.Duration(j.Fault.Budget)*time.Millisecond)
+			var got *bytes.Buffer
+			if ep.sc.Prop != "C12" {
+				got = &bytes.Buffer{} // the reader keeps what it receives: the content checks run on it
+			}
+			go envDrain(rd, done, time.Duration(j.Fault.Budget)*time.Millisecond, got)
 			defer func() {
 				keep.Close()
+				if got == nil {
+					rd.Close()
+					jr.res.FaultNote = fmt.Sprintf("%d bytes went down the pipe", <-done)
+					return
+				}
+				// end of file arrives once the library has closed its descriptor too
+				select {
+				case n := <-done:
+					jr.res.FaultNote = fmt.Sprintf("%d bytes went down the pipe", n)
+				case <-time.After(5 * time.Second):
+					rd.Close()
+					jr.res.FaultNote = fmt.Sprintf("%d bytes went down the pipe; the library still holds the pipe open", <-done)
+				}
 				rd.Close()
-				jr.res.FaultNote = fmt.Sprintf("%d bytes went down the pipe", <-done)
+				collected := path + ".collected"
+				os.WriteFile(collected, got.Bytes(), 0o644)
+				jr.state.path, jr.state.pipe = collected, true
 			}()
 		}
 		call()
@@ -577,9 +605,13 @@ func (ep *episode) withFault(j *Job, jr *jobRun, path string, call func()) func(
 
 // envDrain is the reader at the other end of a named pipe.
 // A reader that is busy for a while first stalls every write once the pipe is full.
-func envDrain(rd *os.File, done chan<- int64, busy time.Duration) {
+func envDrain(rd *os.File, done chan<- int64, busy time.Duration, keep *bytes.Buffer) {
 	time.Sleep(busy)
-	n, _ := io.Copy(io.Discard, rd)
+	var w io.Writer = io.Discard
+	if keep != nil {
+		w = keep
+	}
+	n, _ := io.Copy(w, rd)
 	done <- n
 }
 
@@ -589,7 +621,7 @@ func envDrain(rd *os.File, done chan<- int64, busy time.Duration) {
 func (ep *episode) prepare(j *Job, jres *JobResult) (*jobRun, error) {
 	jr := &jobRun{job: j, jid: uint32(j.ID), res: jres}
 	jres.Sig = fmt.Sprintf("%s/%s/%d/%s", j.Kind, j.Model, j.Cells, j.Sink)
-	faulty := j.Fault.Kind != ""
+	faulty := j.Fault.Kind != "" && !(j.Fault.Kind == "fifo" && ep.sc.Prop != "C12")
 	switch j.Kind {
 	case "script3":
 		items := genTriangles(j.N, j.Coords, j.CoordSeed)
@@ -776,6 +808,9 @@ func (ep *episode) bind3(jr *jobRun, s sdf.SDF3, r render.Render3, faulty bool) 
 	}
 	jr.after = func() {
 		check(&jr.res.AtReturn)
+		if !faulty && ep.sc.Prop == "C09" {
+			jr.res.DigestRet = jr.state.digest()
+		}
 		if !faulty && ep.sc.Prop == "C13" && j.Sink == "stl" {
 			ep.compareBatchSTL(jr)
 		}
@@ -821,6 +856,9 @@ func (ep *episode) bind2(jr *jobRun, s sdf.SDF2, r render.Render2, faulty bool) 
 	}
 	jr.after = func() {
 		check(&jr.res.AtReturn)
+		if !faulty && ep.sc.Prop == "C09" {
+			jr.res.DigestRet = jr.state.digest()
+		}
 		if !faulty && ep.sc.Prop == "C15" {
 			ep.compareBatch2(jr)
 			ep.objectAPI2(jr)
@@ -871,6 +909,9 @@ func (ep *episode) loadForeignSTL(seed uint64) Check {
 // compareBatchSTL: the streaming writer produces the same bytes as the batch
 // writer for the same triangles (C13), and LoadSTL returns them.
 func (ep *episode) compareBatchSTL(jr *jobRun) {
+	if jr.state.pipe {
+		return // the output went down a pipe: there is no second file to compare with
+	}
 	if jr.res.AtReturn != nil && !jr.res.AtReturn.OK {
 		return
 	}
@@ -1096,6 +1137,9 @@ func firstDiff(a, b []byte) int {
 
 // compareBatch2: SaveDXF / SaveSVG hold the same geometry as the streaming path.
 func (ep *episode) compareBatch2(jr *jobRun) {
+	if jr.state.pipe {
+		return // the output went down a pipe: there is no second file to compare with
+	}
 	if jr.res.AtReturn != nil && !jr.res.AtReturn.OK {
 		return
 	}
@@ -1129,6 +1173,9 @@ func (ep *episode) compareBatch2(jr *jobRun) {
 // times and once more at the end. After every Save the file must hold exactly
 // the segments added so far.
 func (ep *episode) objectAPI2(jr *jobRun) {
+	if jr.state.pipe {
+		return // the output went down a pipe: there is no second file to compare with
+	}
 	if jr.res.AtReturn != nil && !jr.res.AtReturn.OK {
 		return
 	}
